@@ -613,6 +613,16 @@ func c10Eval_(c *Ctx, kind string, raw []byte) {
 				same = sameObj(keep[i], tr2[i])
 			}
 			c.Direct("eval-twice-same-nodes", same, map[string]any{"first": trail, "second_len": len(tr2)})
+			// the same content built so that structurally equal subtrees are ONE node object (a block attached at several
+			// positions): evaluation is about positions, the result is the same
+			dd := heapBuildDag(k.Doc, map[string]dom.Node{}).(dom.Container)
+			tr3, n3 := c10PathOf(k.P).Eval(dd)
+			trail3 := make([]any, len(tr3))
+			for i, e := range tr3 {
+				trail3[i] = nodeWire(e)
+			}
+			c.Direct("eval-same-on-document-with-shared-node-objects", canon(nodeWire(n3)) == canon(node) && canon(trail3) == canon(trail),
+				map[string]any{"distinct objects": node, "shared objects": nodeWire(n3)})
 		})
 		if !c.Direct("eval-no-panic", out == "ok", txt) {
 			return
